@@ -158,6 +158,7 @@ def gen_project(dim, full=False):
     PS = pr.presets = {}
     two_a = choose(2, 'outputs of A') == 1
     a_outs = ['a1.txt', 'a2.txt'] if two_a else ['a1.txt']
+    odd = 0          # set below, once the input shapes are known: 1 = a space, 2 = a dollar sign and a colon in the output names of A
     # the flags matter for what is built by default / installed: symbolic where the consumers vary; where the INPUTS vary only the index and the install flag are
     PS['BA'] = sym_bool('A.build_by_default') if (dim != 'inputs' or full) else False
     PS['BB'] = sym_bool('B.build_by_default') if (dim != 'inputs' or full) else False
@@ -167,6 +168,8 @@ def gen_project(dim, full=False):
     vary_in = dim in ('inputs', 'all'); vary_co = dim in ('consumers', 'all')
     in_b = choose(8, 'input of B') if vary_in else 2          # 7: a source file named by its ABSOLUTE path
     in_c = choose(5, 'input of C') if vary_in else 0
+    odd = choose(3, 'odd output names') if (vary_in and in_b in (1, 2) and in_c in (0, 1)) else 0
+    if odd: a_outs = [n_.replace('a', ['', 'a b', 'a$:'][odd], 1) for n_ in a_outs]
     place = choose(3, 'where B lives') if vary_in else 0          # 0: top level, 1: subdir('sub'), 2: top level with build_subdir : 'deep' (builddir != subdir)
     b_sub = place == 1
     EAS = ['plain', 'a\\b', 'keep@INPUT@', '@BUILD_DIR@/y', '@OUTPUT0@']      # extra_args of generator.process(): passed on verbatim - no template substitution, no backslash normalisation
